@@ -121,7 +121,11 @@ def _nontrivial(case, out) -> bool:
 
 def run(ctx: Check) -> int:
     from harness.runner_sim import explore, simulate
+    import time
+    t0 = time.time()
     ctx.prove(MODULE, REQUIRED)
+    timing = {"prove": round(time.time() - t0, 1)}
+    t0 = time.time()
     rng = ctx.rng
     seen: set[str] = set()
     cases: dict[str, list[dict]] = {"corpus": [], "explore": [], "random-conn": [], "random-indep": [], "weird": []}
@@ -147,8 +151,8 @@ def run(ctx: Check) -> int:
 
     # 1. systematic enumeration of schedules
     base = [("start",), ("stop",)]
-    scopes = [dict(faults=2, others=2, total=2, depth=ctx.n(26, 40)),
-              dict(faults=3, others=ctx.n(0, 1), total=3, depth=ctx.n(22, 30))]
+    scopes = [dict(faults=2, others=2, total=2, depth=ctx.n(24, 40)),
+              dict(faults=3, others=ctx.n(0, 1), total=3, depth=ctx.n(20, 30))]
     complete = True
     for sc in scopes:
         for prefix, res in explore(base, limit=ctx.n(6000, 120000), mode="conn", ev_window=12, **sc):
@@ -160,7 +164,7 @@ def run(ctx: Check) -> int:
 
     # 2. random schedules: longer runs, more faults, several scripts, both failure models
     max_f = ctx.n(3, 5)
-    for stream, mode, n in (("random-conn", "conn", ctx.n(260, 5000)), ("random-indep", "indep", ctx.n(160, 3000))):
+    for stream, mode, n in (("random-conn", "conn", ctx.n(200, 5000)), ("random-indep", "indep", ctx.n(120, 3000))):
         for _ in range(n):
             script = rng.choice(SCRIPTS)
             r = random.Random(rng.random())
@@ -169,7 +173,7 @@ def run(ctx: Check) -> int:
             hz = fu + 30.0
             res = simulate([tuple(e) for e in script], [], mode=mode, rnd=r, max_faults=mf, ev_window=60,
                            horizon=hz, fault_until=fu, min_time=r.choice([0.0, fu + 7.0]),
-                           probs={"send": r.choice([0.02, 0.05, 0.15]), "conn": r.choice([0.1, 0.4])})
+                           probs={"send": r.choice([0.02, 0.05, 0.15, 0.3]), "conn": r.choice([0.1, 0.4])})
             add(stream, {"script": script, "prefix": [v for _, _, v in res.choices], "mode": mode, "ev_window": 60,
                          "max_faults": mf, "horizon": hz, "fault_until": fu, "min_time": res.t_end - 0.45}, res)
     # 3. malformed use: events before the first connection, stop without a run, two starts, no events
@@ -192,6 +196,8 @@ def run(ctx: Check) -> int:
                 "the first connection, stop without run, double start. Non-trivial = at least one fault and a "
                 "completed catch-up (Reconnected reached). Identical traces are checked once.")
 
+    timing["simulate+oracle"] = round(time.time() - t0, 1)
+    t0 = time.time()
     # correspondence: the logged trace must be accepted by the model and end in the observed state
     def lines(case):
         return ["trace\t" + " ".join(_tokens(results[id(case)]))]
@@ -211,7 +217,7 @@ def run(ctx: Check) -> int:
 
     # self-test: a model without "send while CatchingUp" must reject real traces
     if first_cases and first_out:
-        k = min(len(first_cases), 300)
+        k = min(len(first_cases), 150)
         ctx.selftest("explore", "Runner", first_cases[:k],
                      lambda c: ["mutant\t" + " ".join(_tokens(results[id(c)]))], first_out[:k])
         # impossible traces must be rejected: a changed sequence number, a message answered twice
@@ -231,7 +237,7 @@ def run(ctx: Check) -> int:
         ctx.correspond("corrupted-traces", "Runner", corrupt, lambda t: ["verdict\t" + " ".join(t)],
                        lambda t: ["rej"])
         # model-side verdicts on the same traces vs the oracle (diagnostic: both should name the same runs)
-        sample = [c for c in first_cases if c["_nontrivial"]][:400]
+        sample = [c for c in first_cases if c["_nontrivial"]][:ctx.n(200, 2000)]
         flags = drive("Runner", [["flags\t" + " ".join(_tokens(results[id(c)]))] for c in sample])
         from harness.runner_oracle import check
         agree = 0
@@ -247,6 +253,8 @@ def run(ctx: Check) -> int:
                 ctx.notes.append(f"oracle reports {sorted(keys)} but model flags '{fl[0]}' on {c['prefix']}")
         ctx.extra["oracle_vs_model_flags"] = {"runs": len(sample), "model_covers_oracle": agree}
 
+    timing["model"] = round(time.time() - t0, 1)
+    ctx.extra["timing_s"] = timing
     ctx.assumptions = [
         "transport = ordered channel (like the websocket RPC: requests handled and answered in send order); a send "
         "either succeeds or raises ProtocolNetworkException, possibly after the aggregator has received the message",
